@@ -230,7 +230,9 @@ func findBit(bytes []byte, startIndex, endIndex, width int, searchBit, noEnd boo
 	// enforce boundaries
 	if startBit < 0 {
 		startBit = 0
-	} else if startBit > end {
+	}
+	if startBit > end {
+		// also the case for an empty string, whatever the start
 		return -1
 	}
 	if endBit < startBit {
